@@ -3,8 +3,11 @@
 Require Import ExtrOcamlBasic.
 From Coq Require Import NArith List.
 From Snap.GF Require Import Gf.
-From Snap.Raid Require Import GenModel.
+From Snap.Raid Require Import GenModel RecModel.
 Extraction Language OCaml.
 Set Extraction Optimize.
 Extraction "../ocaml/snapext.ml"
-  GenModel.gen_blocks GenModel.spec_blocks GenModel.gen_mat GenModel.gen_np Gf.gmul.
+  GenModel.gen_blocks GenModel.spec_blocks GenModel.gen_mat GenModel.gen_np Gf.gmul
+  RecModel.raid_rec_blocks RecModel.raid_data_blocks RecModel.raid_check_blocks RecModel.raid_scan_blocks
+  RecModel.invertN RecModel.mx_of_list RecModel.list_of_mx RecModel.raid_sort_model RecModel.raid_insert_model
+  RecModel.comb_all RecModel.comb_first RecModel.binom.
